@@ -115,8 +115,10 @@ Record phybo_item := {
   pi_push : bool;
   pi_md : Z;
   pi_paps : list Z;            (* phy.paps[cog] immediately before the call: input of the model *)
-  pi_obs : list Z;             (* the pattern of the cognate set as first built from the wordlist: what the
-                                  stored scenario must reproduce under this call's missing_data *)
+  pi_obs : list Z;             (* presence / absence / missing of the cognate set derived by the harness from the
+                                  ROWS of the wordlist (not from phy.paps): what the stored scenario must
+                                  reproduce under this call's missing_data *)
+  pi_coded_ok : bool;          (* harness: phy.paps[cog] as first built equals pi_obs *)
   pi_exact : bool;             (* compare with the model (false for top-down: the result depends on
                                   the cognate sets processed before, see notes/design/C07.md) *)
   pi_out : story               (* phy.gls[glm][cog][0] *)
@@ -134,7 +136,8 @@ Definition phybo_item_code (t : tree) (taxa : list Z) (i : phybo_item) : nat :=
          result_eqb (phybo_per_cog pat t (pi_mode i) (pi_gpl i) (pi_push i) (pi_md i)) (pi_out i))
   + bit 1 (replay_okb (pi_md i) (combine taxa (pi_obs i)) t (pi_out i))
   + bit 6 (negb (conflictb (pi_out i)))
-  + bit 7 (Nat.eqb (length taxa) (length (pi_paps i)) && Nat.eqb (length taxa) (length (pi_obs i))).
+  + bit 7 (Nat.eqb (length taxa) (length (pi_paps i)) && Nat.eqb (length taxa) (length (pi_obs i)))
+  + bit 8 (pi_coded_ok i).
 
 Definition phybo_case_code (c : phybo_case) : nat :=
   fold_right (fun i acc => Nat.lor (phybo_item_code (pc_tree c) (pc_taxa c) i) acc) 0%nat (pc_items c).
